@@ -10,6 +10,7 @@
 From Coq Require Import String List.
 From NC Require Import Model.Base Model.Lit Gen.Gen_Const Gen.Gen_Lits GenProps.TieTac.
 From NC Require Import Model.Caps Model.Gating Model.Builders.
+From NC Require Import Gen.Gen_Devices.
 Import ListNotations.
 Set Printing Width 400.
 
@@ -332,3 +333,27 @@ Theorem tie_operations_util_url_validator : L_operations_util_url_validator = []
 Proof. tie. Qed.
 Print Assumptions tie_operations_util_url_validator.
 
+
+(* ---- the device profiles' hook on the finished <edit-config> element (Builders.transform_edit_config) ----
+   ncclient/devices/iosxe.py:44  devices.iosxe.IosxeDeviceHandler.transform_edit_config
+       nodes = node.findall("./config"); if len(nodes) == 1: nodes[0].tag = '{%s}%s' % (BASE_NS_1_0, 'config')
+   The path "./config" (direct children, no namespace), the count 1, the index 0 and the new name are the constants of
+   Builders.iosxe_transform / is_bare_config / to_base_config; the log text is excluded by the translator. *)
+Theorem tie_devices_iosxe_transform_edit_config :
+  L_devices_iosxe_IosxeDeviceHandler_transform_edit_config = [lit "./config"%string; lit "{%s}%s"%string; Builders.s_config]
+  /\ I_devices_iosxe_IosxeDeviceHandler_transform_edit_config = [1; 0]%N
+  /\ R_devices_iosxe_IosxeDeviceHandler_transform_edit_config = [lit "BASE_NS_1_0"%string].
+Proof. tie. Qed.
+Print Assumptions tie_devices_iosxe_transform_edit_config.
+
+(* which profiles have a hook of their own, and the source text the model of each was written for: DefaultDeviceHandler
+   (`return node`, inherited by 12 profiles) and IosxeDeviceHandler.  A hook added to another profile, or a changed body,
+   breaks this tie: the model [transform_edit_config] (identity unless p_iosxe) must then be revisited. *)
+Definition s_transform_edit_config := Eval compute in lit "transform_edit_config"%string.
+Theorem tie_transform_edit_config_definers :
+  map h_module (filter (fun h => mem_bytes s_transform_edit_config (h_defines h)) handlers) = [lit "default"%string; lit "iosxe"%string]
+  /\ L_devices_default_DefaultDeviceHandler_transform_edit_config = []
+  /\ method_digest h_default s_transform_edit_config = Some (lit "9c1d4d1441905e63"%string)
+  /\ method_digest h_iosxe s_transform_edit_config = Some (lit "df8c22a0a6def2ef"%string).
+Proof. tie. Qed.
+Print Assumptions tie_transform_edit_config_definers.
